@@ -201,6 +201,15 @@ func runC13(tier string, seed uint64, o *Out) error {
 	for _, l := range ls {
 		o.Line("%s", l)
 	}
+	// (6) IS [NOT] NULL on columns whose NAME contains keyword fragments (note, isnull, android, ...)
+	nl, nnames, err := sqlNamedNull(rng, tier)
+	if err != nil {
+		return err
+	}
+	for _, l := range nl {
+		o.Line("%s", l)
+	}
+	o.Count("sql_named_null_names_" + fmt.Sprint(nnames))
 	return nil
 }
 
@@ -483,6 +492,269 @@ func sqlCombined() ([]string, error) {
 			s.Stop()
 			for i, r := range rows {
 				out = append(out, fmt.Sprintf("C13 K having %s %s %s %s %s %s", f.name, r.px, hx(r.x), r.py, hx(p), b01(seen[i])))
+			}
+		}
+	}
+	return out, nil
+}
+
+// ---- (6) IS [NOT] NULL where the operand's name contains keyword fragments -------------------------
+//
+// The IS [NOT] NULL rewrite (functions/expr_bridge.go PreprocessIsNullExpression) and the keyword probes
+// around it work on the TEXT of the predicate, so the answer must not depend on how the column is
+// spelled: names containing not / null / is / and / or / like / in / nil ... in lower, UPPER and Mixed
+// case. Every name is used in WHERE (alone, backtick-quoted and in a conjunction), in a CASE condition, in a SELECT
+// expression evaluated through the expression bridge, in HAVING (as the alias of an aggregate) and as
+// the argument of a function-call operand. The row carries a second column with another pool name and
+// the opposite presence, so answering for the wrong column is visible too.
+// Line: C13 I <ctx> <op> <hex name> <pres> <hex other name> <other pres> <result>
+
+var c13NameCore = []string{
+	"note", "notes", "notify_at", "annotation", "nothing", "knot", "cannot", "not_v",
+	"isnull", "is_not", "isnotnull", "is_null_flag", "nullable", "null_count", "nonnull", "nil_v", "vnil",
+	"android", "band", "and_v", "order_id", "oreo", "floor_no", "or_v",
+	"like_count", "unlike", "in_stock", "inner_id", "login", "isle", "this",
+	"x", "val",
+}
+
+// words of the SQL / expression grammar: not usable as a column name without quoting
+var c13Reserved = map[string]bool{"not": true, "null": true, "is": true, "and": true, "or": true, "like": true, "in": true,
+	"nil": true, "as": true, "by": true, "end": true, "case": true, "when": true, "then": true, "else": true, "true": true, "false": true}
+
+var c13NameFrags = []string{"not", "null", "is", "and", "or", "like", "in", "nil", "isnot", "notnull", "isnull"}
+
+func c13CaseVariants(n string) []string {
+	up := strings.ToUpper(n)
+	mixed := []byte(n)
+	for i := range mixed {
+		if i%2 == 0 && mixed[i] >= 'a' && mixed[i] <= 'z' {
+			mixed[i] -= 32
+		}
+	}
+	out := []string{n}
+	for _, v := range []string{up, string(mixed)} {
+		dup := false
+		for _, w := range out {
+			if w == v {
+				dup = true
+			}
+		}
+		if !dup {
+			out = append(out, v)
+		}
+	}
+	return out
+}
+
+// c13RandName: [a-z]{0,2} fragment ( "" | _[a-z]{1,2} | [a-z] | digit ), letter case varied per byte
+func c13RandName(rng *RNG) string {
+	letters := "abcdefghklmpqrstuvwxyz"
+	var b []byte
+	for i, k := 0, rng.Intn(3); i < k; i++ {
+		b = append(b, letters[rng.Intn(len(letters))])
+	}
+	b = append(b, c13NameFrags[rng.Intn(len(c13NameFrags))]...)
+	switch rng.Intn(4) {
+	case 1:
+		b = append(b, '_')
+		for i, k := 0, 1+rng.Intn(2); i < k; i++ {
+			b = append(b, letters[rng.Intn(len(letters))])
+		}
+	case 2:
+		b = append(b, letters[rng.Intn(len(letters))])
+	case 3:
+		b = append(b, byte('0'+rng.Intn(10)))
+	}
+	switch rng.Intn(3) {
+	case 1:
+		b = []byte(strings.ToUpper(string(b)))
+	case 2:
+		for i := range b {
+			if rng.Bool() && b[i] >= 'a' && b[i] <= 'z' {
+				b[i] -= 32
+			}
+		}
+	}
+	return string(b)
+}
+
+// presence tokens: N null, A absent, Pe "", Ps "hello", Pz 0, Pf false
+func c13NVal(pres string) (any, bool) {
+	switch pres {
+	case "N":
+		return nil, true
+	case "Pe":
+		return "", true
+	case "Ps":
+		return "hello", true
+	case "Pz":
+		return int64(0), true
+	case "Pf":
+		return false, true
+	}
+	return nil, false // absent
+}
+
+func sqlNamedNull(rng *RNG, tier string) ([]string, int, error) {
+	var names []string
+	seenName := map[string]bool{}
+	add := func(n string) {
+		// two spellings that differ only in letter case may not share one run: keep them all, the
+		// queries are per name
+		if !seenName[n] {
+			seenName[n] = true
+			names = append(names, n)
+		}
+	}
+	for _, n := range c13NameCore {
+		for _, v := range c13CaseVariants(n) {
+			add(v)
+		}
+	}
+	nrand := 12
+	if tier == "thorough" {
+		nrand = 150
+	}
+	// own stream for the names: the streams of consecutive seeds are shifted copies of each other
+	nrng := &RNG{s: rng.Next() ^ 0x6331336e616d6573}
+	for i := 0; i < nrand; i++ {
+		n := c13RandName(nrng)
+		for c13Reserved[strings.ToLower(n)] { // a bare keyword is not an identifier
+			n = c13RandName(nrng)
+		}
+		add(n)
+	}
+	type job struct{ name, other string }
+	var jobs []job
+	for _, n := range names {
+		o := names[nrng.Intn(len(names))]
+		for strings.EqualFold(o, n) {
+			o = names[nrng.Intn(len(names))]
+		}
+		jobs = append(jobs, job{n, o})
+	}
+	var mu sync.Mutex
+	var wg sync.WaitGroup
+	sem := make(chan struct{}, 12)
+	res := make([][]string, len(jobs))
+	var firstErr error
+	for i, j := range jobs {
+		i, j := i, j
+		wg.Add(1)
+		sem <- struct{}{}
+		go func() {
+			defer wg.Done()
+			defer func() { <-sem }()
+			ls, err := sqlNamedNullOne(j.name, j.other)
+			mu.Lock()
+			res[i] = ls
+			if err != nil && firstErr == nil {
+				firstErr = err
+			}
+			mu.Unlock()
+		}()
+	}
+	wg.Wait()
+	if firstErr != nil {
+		return nil, 0, firstErr
+	}
+	var out []string
+	for _, ls := range res {
+		out = append(out, ls...)
+	}
+	return out, len(names), nil
+}
+
+func sqlNamedNullOne(name, other string) ([]string, error) {
+	var out []string
+	// (presence of the column under test, presence of the other column)
+	rows := [][2]string{{"N", "Ps"}, {"A", "Ps"}, {"Pe", "N"}, {"Ps", "A"}, {"Pz", "N"}, {"Pf", "A"}, {"N", "N"}, {"Ps", "Ps"}}
+	mk := func(id int, r [2]string, col, ocol string) map[string]any {
+		m := map[string]any{"id": id}
+		if v, ok := c13NVal(r[0]); ok {
+			m[col] = v
+		}
+		if v, ok := c13NVal(r[1]); ok {
+			m[ocol] = v
+		}
+		return m
+	}
+	line := func(ctx, tag string, r [2]string, v string) {
+		out = append(out, fmt.Sprintf("C13 I %s %s %s %s %s %s %s", ctx, tag, hx(name), r[0], hx(other), r[1], v))
+	}
+	for _, neg := range []bool{false, true} {
+		op, tag := "IS NULL", "isnull"
+		if neg {
+			op, tag = "IS NOT NULL", "isnotnull"
+		}
+		// filters: WHERE alone, in a conjunction, function-call operand
+		for _, f := range []struct{ ctx, pred string }{
+			{"where", name + " " + op},
+			{"whereand", name + " " + op + " AND id >= 0"},
+			{"wherefn", "coalesce(" + name + ", " + name + ") " + op},
+			{"wherebt", "`" + name + "` " + op},
+		} {
+			s := streamsql.New(streamsql.WithDiscardLog())
+			if err := s.Execute("SELECT id FROM stream WHERE " + f.pred); err != nil {
+				s.Stop()
+				return nil, fmt.Errorf("named %s %q: %v", f.ctx, f.pred, err)
+			}
+			for i, r := range rows {
+				res, err := s.EmitSync(mk(i, r, name, other))
+				v := "0"
+				if err != nil {
+					v = "e"
+				} else if res != nil && len(res) > 0 {
+					v = "1"
+				}
+				line(f.ctx, tag, r, v)
+			}
+			s.Stop()
+		}
+		// projections: CASE condition (own evaluator) and a SELECT expression (expression bridge)
+		for _, f := range []struct{ ctx, item string }{
+			{"case", "CASE WHEN " + name + " " + op + " THEN 1 ELSE 0 END AS c"},
+			{"selexpr", name + " " + op + " == true AS c"},
+		} {
+			s := streamsql.New(streamsql.WithDiscardLog())
+			if err := s.Execute("SELECT id, " + f.item + " FROM stream"); err != nil {
+				s.Stop()
+				return nil, fmt.Errorf("named %s %q: %v", f.ctx, f.item, err)
+			}
+			for i, r := range rows {
+				res, err := s.EmitSync(mk(i, r, name, other))
+				v := "e"
+				if err == nil && res != nil {
+					v = truthy(res["c"])
+				}
+				line(f.ctx, tag, r, v)
+			}
+			s.Stop()
+		}
+		// HAVING: the name is the alias of an aggregate over CountingWindow(1)
+		{
+			s := streamsql.New(streamsql.WithDiscardLog())
+			q := "SELECT last_value(x) AS " + name + ", last_value(y) AS " + other + ", last_value(id) AS lid FROM stream GROUP BY CountingWindow(1) HAVING " + name + " " + op
+			if err := s.Execute(q); err != nil {
+				s.Stop()
+				return nil, fmt.Errorf("named having %q: %v", q, err)
+			}
+			var mu sync.Mutex
+			seen := map[int]bool{}
+			s.AddSyncSink(func(rs []map[string]any) {
+				mu.Lock()
+				for _, r := range rs {
+					seen[toInt(r["lid"])] = true
+				}
+				mu.Unlock()
+			})
+			for i, r := range rows {
+				s.Emit(mk(i, r, "x", "y"))
+			}
+			waitQuiet(func() int { mu.Lock(); defer mu.Unlock(); return len(seen) })
+			s.Stop()
+			for i, r := range rows {
+				line("having", tag, r, b01(seen[i]))
 			}
 		}
 	}
